@@ -688,7 +688,7 @@ Section Calls.
           then (sw, inl (RFail EPermDenied))
           else if has om OpenCreateExcl then (sw, inl (RFail EFileExists))
           else (with_heap sw (upd (f_heap sw) c (NFile (if has om OpenTruncate then [] else dt) k i m)),
-                inr (new_handle c vi nmw (if has om OpenAppend then Z.of_nat (length (if has om OpenTruncate then [] else dt)) else 0%Z) om))
+                inr (new_handle c vi nmw 0%Z om))
       | Some (NDir _ m) =>
           if has om OpenCreateExcl then (sw, inl (RFail EFileExists))
           else if has om OpenWrite || has om OpenCreate || has om OpenTruncate then (sw, inl (RFail EIsADirectory))
@@ -702,7 +702,7 @@ Section Calls.
           then (sl, inl (RFail EPermDenied))
           else if has om OpenCreateExcl then (sl, inl (RFail EFileExists))
           else (with_heap sl (upd (f_heap sl) c (NFile (if has om OpenTruncate then [] else dt) k i m)),
-                inr (new_handle c vi (SLASH :: r) (if has om OpenAppend then Z.of_nat (length (if has om OpenTruncate then [] else dt)) else 0%Z) om))
+                inr (new_handle c vi (SLASH :: r) 0%Z om))
       | Some (NDir _ m) =>
           if has om OpenCreateExcl then (sl, inl (RFail EFileExists))
           else if has om OpenWrite || has om OpenCreate || has om OpenTruncate then (sl, inl (RFail EIsADirectory))
@@ -772,16 +772,17 @@ Section Calls.
     destruct Hres as (Hn & Hat & Hm & _ & _ & _ & _ & _ & Hnw & Hnl & Hsome).
     unfold f_read. destruct (hd_name fw); [congruence|]. destruct (hd_name fl); [congruence|].
     rewrite Hn, Hm. destruct (hd_node fl) as [c|]; [|congruence].
-    pose proof (@file_of_rel sw1 sl1 c F1) as Hf.
-    destruct (file_of sw1 c) as [[[[dw kw] iw] mw]|]; destruct (file_of sl1 c) as [[[[dl kl] il] ml]|]; try contradiction;
-      [|destruct (win vw), (win vl); reflexivity].
-    destruct Hf as (-> & _ & _). destruct (negb (has (hd_mode fl) OpenRead)); [reflexivity|].
-    rewrite Hat.
     assert (Hsz : match get (f_heap sw1) c with Some (NFile d0 _ _ _) => Z.of_nat (length d0) | _ => 0%Z end
                   = match get (f_heap sl1) c with Some (NFile d0 _ _ _) => Z.of_nat (length d0) | _ => 0%Z end).
     { destruct (hrel_get_cases c (fr_heap F1)) as [[Ew El]|(nw & nl & Ew & El & Hnr)]; rewrite Ew, El; [reflexivity|].
       destruct Hnr; reflexivity. }
     rewrite Hsz.
+    destruct (Z.leb _ 0); [reflexivity|].
+    pose proof (@file_of_rel sw1 sl1 c F1) as Hf.
+    destruct (file_of sw1 c) as [[[[dw kw] iw] mw]|]; destruct (file_of sl1 c) as [[[[dl kl] il] ml]|]; try contradiction;
+      [|destruct (win vw), (win vl); reflexivity].
+    destruct Hf as (-> & _ & _). destruct (negb (has (hd_mode fl) OpenRead)); [reflexivity|].
+    rewrite Hat.
     destruct (Z.eqb _ 0); reflexivity.
   Qed.
 
@@ -801,6 +802,7 @@ Section Calls.
       [|split; [exact F1|destruct (win vw), (win vl); reflexivity]].
     destruct Hf as (-> & -> & ->).
     destruct (negb (has (hd_mode fl) OpenWrite)); [split; [exact F1|destruct (win vw), (win vl); reflexivity]|].
+    destruct data as [|b0 data]; [split; [exact F1|reflexivity]|].
     rewrite Hat. split; [|reflexivity]. cbn [fst]. apply frel_with_heap; [exact F1|]. apply hrel_upd; [apply F1|constructor].
   Qed.
 End Calls.
